@@ -37,11 +37,9 @@
 #![allow(dead_code)]
 
 use std::{
-    cell::RefCell,
     future::Future,
     os::fd::{AsRawFd, FromRawFd, OwnedFd, RawFd},
     pin::Pin,
-    rc::Rc,
     sync::{
         Arc, Mutex,
         atomic::{AtomicBool, AtomicU64, AtomicUsize, Ordering::SeqCst},
@@ -193,6 +191,13 @@ struct Det {
     n: usize,
     main_waker: Waker,
     helpers: Vec<std::thread::JoinHandle<()>>,
+    // external-loop oracle (implementation only): a wake returned since the loop last looked (run / poll0 / clear)
+    owed: bool,
+    // a flush happened since then
+    flushed: bool,
+    // the wake was reported to the loop: a later flush said "notified" or the fd was seen readable
+    reported: bool,
+    drv_name: String,
 }
 
 impl Det {
@@ -213,7 +218,7 @@ impl Det {
         }
         w.log.lock().unwrap().clear();
         let main_waker = b.rt.waker();
-        Ok(Det { b, w, n, main_waker, helpers: vec![] })
+        Ok(Det { b, w, n, main_waker, helpers: vec![], owed: false, flushed: false, reported: false, drv_name: format!("{drv:?}") })
     }
 
     fn task_waker(&self, t: usize) -> Option<Waker> {
@@ -244,23 +249,47 @@ fn det_op(d: &mut Det, line: &str, ex: &mut Exec) -> String {
     match toks.as_slice() {
         ["wake"] => {
             d.main_waker.wake_by_ref();
+            d.owed = true;
+            d.reported = false;
             "ok".into()
         }
         ["flush"] => {
-            if d.b.rt.flush() { "flush=notified".into() } else { "flush=idle".into() }
+            let n = d.b.rt.flush();
+            d.flushed = true;
+            if n && d.owed {
+                d.reported = true;
+            }
+            if n { "flush=notified".into() } else { "flush=idle".into() }
         }
         ["poll0"] => match catch(|| d.b.rt.poll_with(Some(Duration::ZERO))) {
-            Ok(()) => "ok".into(),
+            Ok(()) => {
+                d.owed = false;
+                d.flushed = false;
+                "ok".into()
+            }
             Err(e) => format!("panic {e}"),
         },
         ["fd"] => {
-            if readable(d.b.wait_fd(), 0) { "fd=readable".into() } else { "fd=not".into() }
+            let r = readable(d.b.wait_fd(), 0);
+            if r && d.owed {
+                d.reported = true;
+            }
+            // the external loop would now wait on this descriptor without a timeout (nothing hot, flush said idle)
+            if d.owed && d.flushed && !d.reported && !r {
+                ex.fail(
+                    "C03:external-loop-lost-wake",
+                    format!("deterministic program on {}: a wake() returned, no later flush() reported it and the descriptor is not readable: an external loop would block: {}", d.drv_name, line),
+                );
+            }
+            if r { "fd=readable".into() } else { "fd=not".into() }
         }
         ["ring"] => {
             if readable(d.b.rt.as_raw_fd(), 0) { "ring=readable".into() } else { "ring=not".into() }
         }
         ["clear"] => {
             d.b.clear();
+            d.owed = false;
+            d.flushed = false;
             "ok".into()
         }
         ["twake", t] => {
@@ -274,6 +303,8 @@ fn det_op(d: &mut Det, line: &str, ex: &mut Exec) -> String {
             match rx.recv_timeout(Duration::from_millis(300)) {
                 Ok(()) => {
                     let _ = h.join();
+                    d.owed = true;
+                    d.reported = false;
                     "ok".into()
                 }
                 Err(_) => {
@@ -286,11 +317,14 @@ fn det_op(d: &mut Det, line: &str, ex: &mut Exec) -> String {
         ["lwake", t] => {
             let Some(wk) = t.parse().ok().and_then(|t: usize| d.task_waker(t)) else { return "bad-op".into() };
             d.b.rt.enter(|| wk.wake_by_ref());
+            // a same-thread wake makes the task hot: `run()` reports it, the loop uses a zero timeout
             "ok".into()
         }
         ["run"] => {
             d.w.log.lock().unwrap().clear();
             let hot = d.b.rt.enter(|| d.b.rt.run());
+            d.owed = false;
+            d.flushed = false;
             let log = d.w.log.lock().unwrap().clone();
             let l = if log.is_empty() { "-".to_string() } else { log.iter().map(|x| x.to_string()).collect::<Vec<_>>().join(",") };
             format!("polled {l} hot={}", hot as u8)
@@ -509,15 +543,35 @@ fn stress(cfg: &StressCfg, ex: &mut Exec) {
         let t0 = Instant::now();
         let mut stuck = false;
         while hs.iter().any(|h| !h.is_finished()) {
-            if t0.elapsed() > Duration::from_secs(3) {
+            if t0.elapsed() > Duration::from_secs(1) {
                 stuck = true;
                 break;
             }
             std::thread::yield_now();
         }
+        let ctx = format!("drv={:?} loop={:?} q={} tasks={} threads={}", cfg.drv, cfg.lp, cfg.q, cfg.tasks, cfg.threads);
         if stuck {
-            ex.fail("C03:waker-thread-stuck", format!("round {round}: a wake() call did not return within 3 s (q={} tasks={} {:?} {:?})", cfg.q, cfg.tasks, cfg.drv, cfg.lp));
-            lost = true;
+            // a wake() call is still spinning on the full queue after 1 s. Wake the driver by hand once: if the
+            // call returns now, the runtime was asleep with a full queue (nobody told it after the last push).
+            wakers[cfg.tasks].wake_by_ref();
+            let t1 = Instant::now();
+            while hs.iter().any(|h| !h.is_finished()) && t1.elapsed() < Duration::from_secs(1) {
+                std::thread::yield_now();
+            }
+            let freed = hs.iter().all(|h| h.is_finished());
+            let detail = format!("round {round}: a wake() call did not return within 1 s (spinning on the full sync queue); {ctx}; after a manual driver wake: {}", if freed { "returned" } else { "still spinning" });
+            if freed {
+                ex.fail("F030:wake-stranded-in-sync-queue", detail);
+                ex.tag("stress:stranded");
+            } else {
+                ex.fail("C03:waker-thread-stuck", detail);
+                lost = true;
+            }
+            for h in hs {
+                if h.is_finished() {
+                    let _ = h.join();
+                }
+            }
             break;
         }
         for h in hs {
@@ -525,30 +579,23 @@ fn stress(cfg: &StressCfg, ex: &mut Exec) {
         }
         if let Some(i) = wait_satisfied(&w, &targets, Duration::from_millis(1000)) {
             // not polled within the watchdog. Wake the driver by hand once: if the future is polled now,
-            // its id was sitting in the sync queue (or the main future's flag was consumed) with the runtime asleep.
+            // its id was sitting in the sync queue with the runtime asleep.
             let what = if i == cfg.tasks { "main".to_string() } else { format!("task{i}") };
+            let (req, seen) = (w.slots[i].req.load(SeqCst), w.slots[i].seen.load(SeqCst));
             wakers[cfg.tasks].wake_by_ref();
             let after = wait_satisfied(&w, &targets, Duration::from_millis(1000));
             let detail = format!(
-                "round {round}: {what} woken (req={}) but last poll saw {} after 1 s; drv={:?} loop={:?} q={} tasks={} threads={} ; after a manual driver wake: {}",
-                w.slots[i].req.load(SeqCst),
-                w.slots[i].seen.load(SeqCst),
-                cfg.drv,
-                cfg.lp,
-                cfg.q,
-                cfg.tasks,
-                cfg.threads,
+                "round {round}: {what} woken (request {req}) but its last poll saw request {seen} after 1 s; {ctx}; after a manual driver wake: {}",
                 if after.is_none() { "polled" } else { "still not polled" }
             );
             if after.is_none() && i != cfg.tasks {
                 ex.fail("F030:wake-stranded-in-sync-queue", detail);
                 ex.tag("stress:stranded");
-                // keep going: the runtime is alive again
             } else {
                 ex.fail(sig, detail);
                 lost = true;
-                break;
             }
+            break;
         }
     }
     // shut down
@@ -628,11 +675,81 @@ fn exec(case: &Case) -> Exec {
     ex
 }
 
+fn gen_det(rng: &mut Rng, name: String) -> Case {
+    let drv = *rng.pick(&["iour", "poll"]);
+    let q = *rng.pick(&[1usize, 1, 2, 3, 64]);
+    let iv = *rng.pick(&[1usize, 2, 3, 61]);
+    let tasks = rng.below(5) as usize;
+    let mut lines = vec![format!("new {drv} q={q} iv={iv} tasks={tasks}")];
+    let n = rng.range(3, 16);
+    // upper bound on the length of the sync queue (remote wakes since the last drain)
+    let mut queued = 0usize;
+    for _ in 0..n {
+        let r = rng.below(100);
+        let op = if r < 14 {
+            "wake".to_string()
+        } else if r < 32 {
+            "flush".to_string()
+        } else if r < 46 {
+            "poll0".to_string()
+        } else if r < 60 {
+            "fd".to_string()
+        } else if r < 66 {
+            "ring".to_string()
+        } else if r < 70 {
+            "clear".to_string()
+        } else if r < 82 && tasks > 0 {
+            if queued >= q {
+                // the queue may be full: such a call can only spin. Rarely try it, as the last operation.
+                if rng.chance(1, 40) {
+                    lines.push(format!("twake {}", rng.below(tasks as u64)));
+                    break;
+                }
+                continue;
+            }
+            queued += 1;
+            format!("twake {}", rng.below(tasks as u64))
+        } else if r < 88 && tasks > 0 {
+            queued = 0;
+            format!("lwake {}", rng.below(tasks as u64))
+        } else {
+            queued = 0;
+            "run".to_string()
+        };
+        lines.push(op);
+    }
+    Case { name, lines }
+}
+
 fn generate(tier: &str, rng: &mut Rng) -> Vec<Case> {
     let mut cases = vec![];
     let thorough = tier == "thorough";
-    // (b) stress first: a few configurations, many short rounds
-    let rounds = if thorough { 1500 } else { 120 };
+    // hand-picked handshakes first (F16: fresh runtime, flush, wake, the fd must be readable)
+    let mut k = 0;
+    for drv in ["iour", "poll"] {
+        for prog in [
+            &["flush", "wake", "fd", "ring", "clear", "poll0", "fd", "ring"][..],
+            &["wake", "fd", "flush", "fd", "ring", "poll0", "flush", "fd"][..],
+            &["poll0", "wake", "fd", "ring", "flush", "fd"][..],
+            &["wake", "poll0", "wake", "ring", "flush", "fd", "flush", "fd"][..],
+            &["flush", "fd", "wake", "wake", "fd", "flush", "wake", "fd", "clear", "fd", "ring", "poll0", "ring"][..],
+            &["twake 0", "fd", "flush", "fd", "run", "twake 0", "twake 1", "run", "run"][..],
+            &["flush", "twake 1", "fd", "clear", "poll0", "run", "flush", "fd"][..],
+            &["lwake 0", "lwake 1", "fd", "run", "run", "flush", "fd"][..],
+            &["twake 0", "twake 0", "lwake 0", "run", "twake 0", "run"][..],
+        ] {
+            let mut lines = vec![format!("new {drv} q=2 iv=1 tasks=2")];
+            lines.extend(prog.iter().map(|s| s.to_string()));
+            cases.push(Case { name: format!("hand-{k}"), lines });
+            k += 1;
+        }
+    }
+    let n_det = if thorough { 40_000 } else { 2_500 };
+    for i in 0..n_det {
+        cases.push(gen_det(rng, format!("det-{i}")));
+    }
+    // (b) stress: a few configurations, many short rounds
+    let rounds = if thorough { 6000 } else { 350 };
     let mut k = 0;
     for drv in ["iour", "poll"] {
         for lp in ["own", "ext"] {
